@@ -380,3 +380,97 @@ impl Scenario {
         h
     }
 }
+
+// ---------------------------------------------------------------------------------------------
+// State product: every combination of the hidden components dump() / RIS have to deal with
+
+pub const STATE_BITS: usize = 14;
+pub const STATE_SAVED: usize = 4;
+
+pub fn state_count() -> usize {
+    (1 << STATE_BITS) * STATE_SAVED * STATE_SAVED
+}
+
+fn saved_script(kind: usize, cols: usize, rows: usize) -> String {
+    // leaves a saved context of the given kind on the current screen; modes are put back afterwards
+    match kind {
+        0 => String::new(),
+        1 => format!("\x1b[{};{}H\x1b[1;35;42m\x1b7\x1b[m", rows, cols.min(3)),
+        2 => format!("\x1b[?7l\x1b[{};{}H\x1b7\x1b[?7h", 1, cols),
+        _ => format!("\x1b[?6h\x1b[{};2H\x1b[3m\x1b7\x1b[m\x1b[?6l", rows.min(2)),
+    }
+}
+
+/// script that drives a fresh cols x rows terminal into combination `i`
+pub fn state_script(mut i: usize, cols: usize, rows: usize) -> String {
+    let mut bit = || {
+        let b = i & 1 == 1;
+        i >>= 1;
+        b
+    };
+    let (alt, origin, awm_off, irm, lnm, ckm, hidden, margins, pending, g0, g1, so, tabs, pen) =
+        (bit(), bit(), bit(), bit(), bit(), bit(), bit(), bit(), bit(), bit(), bit(), bit(), bit(), bit());
+    let sp = i % STATE_SAVED;
+    let sa = (i / STATE_SAVED) % STATE_SAVED;
+    let mut s = String::new();
+    // primary content: a wrapped line, a coloured row, a run of equal characters (REP encoding)
+    s.push_str("\x1b[Hprimary");
+    for _ in 0..cols {
+        s.push('w');
+    }
+    s.push_str("\r\n\x1b[44mcolour\x1b[m\r\nrrrrrrrrrrrr");
+    s.push_str(&saved_script(sp, cols, rows));
+    if alt || sa != 0 {
+        s.push_str("\x1b[?1047h");
+        if alt {
+            s.push_str("\x1b[2;1Halt\x1b[31mred\x1b[m");
+        }
+        s.push_str(&saved_script(sa, cols, rows));
+        if !alt {
+            s.push_str("\x1b[?1047l");
+        }
+    }
+    if tabs {
+        s.push_str("\x1b[3g\x1b[1;3H\x1bH\x1b[1;6H\x1bH");
+    }
+    if margins && rows >= 3 {
+        s.push_str("\x1b[2;3r");
+    }
+    if origin {
+        s.push_str("\x1b[?6h");
+    }
+    // cursor: inside the region (origin-relative addressing keeps it there)
+    if pending {
+        s.push_str(&format!("\x1b[2;{}Hp", cols));
+    } else {
+        s.push_str("\x1b[2;2H");
+    }
+    if pen {
+        s.push_str("\x1b[1;3;38;5;200;48;2;1;2;3m");
+    }
+    if g0 {
+        s.push_str("\x1b(0");
+    }
+    if g1 {
+        s.push_str("\x1b)0");
+    }
+    if so {
+        s.push('\x0e');
+    }
+    if irm {
+        s.push_str("\x1b[4h");
+    }
+    if lnm {
+        s.push_str("\x1b[20h");
+    }
+    if ckm {
+        s.push_str("\x1b[?1h");
+    }
+    if hidden {
+        s.push_str("\x1b[?25l");
+    }
+    if awm_off {
+        s.push_str("\x1b[?7l");
+    }
+    s
+}
